@@ -295,6 +295,17 @@ def condvar_wait(e, c, a):
     return ok(GuardObj(g.m))
 
 
+@model(r"^(std::sync::)?Condvar::wait_while::<")
+def condvar_wait_while(e, c, a):
+    """std semantics: while condition(&mut *guard) { guard = self.wait(guard)? }"""
+    cv, g, clo = a[0], a[1], a[2]
+    while True:
+        r = e.call_closure(clo, [Ref(g.m.cell)])
+        if not e.branch(r):
+            return ok(g)
+        g = condvar_wait(e, "Condvar::wait", [cv, g]).f[0]
+
+
 @model(r"^Condvar::notify_(one|all)$|^std::sync::Condvar::notify_(one|all)$")
 def condvar_notify(e, c, a):
     cv = deref_all(e, a[0])
